@@ -17,6 +17,7 @@ Expressions (tuples):
   ('len', e) ('upper', e) ('split', e, sep) ('list', e1, ...)
   ('toint', e)           int(e)           (Python only)
   ('tofloat', e)         float(e)         (Python only)
+  ('todate', e)          datetime.date.fromordinal(730000 + int(e))   (Python only; a value that is neither text nor a number)
   ('bmax', e1, e2) ('bmin', e1, e2) ('bminlist', e...) ('bsumlist', e...)   lower-case builtins (Python only)
   ('agg', kind, spelling, e)   kind in COUNT MIN MAX SUM AVG VARIANCE MEDIAN ARRAY_AGG ANY_VALUE; e may be ('star',None) for COUNT(*)
   ('star', None|'a'|'b')
@@ -190,6 +191,8 @@ def render_expr(e, lang, sp):
         return ('int(%s)' if lang == 'py' else 'parseInt(%s)') % R(e[1])
     if k == 'tofloat':
         return ('float(%s)' if lang == 'py' else 'parseFloat(%s)') % R(e[1])
+    if k == 'todate':
+        return 'datetime.date.fromordinal(730000 + int(%s))' % R(e[1])
     if k == 'bmax':
         return 'max(%s, %s)' % (R(e[1]), R(e[2]))
     if k == 'bmin':
@@ -332,7 +335,7 @@ def safe_get(rec, i):
     return rec[i] if (rec is not None and 0 <= i < len(rec)) else None
 
 
-PY_ONLY = frozenset(['toint', 'tofloat', 'bmax', 'bmin', 'bminlist', 'bsumlist', 'bmaxgen', 'bminmap', 'bsumgen', 'call', 'tuple'])
+PY_ONLY = frozenset(['toint', 'tofloat', 'todate', 'bmax', 'bmin', 'bminlist', 'bsumlist', 'bmaxgen', 'bminmap', 'bsumgen', 'call', 'tuple'])
 
 
 def ev(e, env):
@@ -430,12 +433,15 @@ def ev(e, env):
         return tuple(ev(x, env) for x in e[1:])
     if k == 'call':
         return {'max': max, 'min': min}[e[1]](*[ev(x, env) for x in e[2:]])
-    if k in ('toint', 'tofloat', 'bmax', 'bmin', 'bminlist', 'bsumlist', 'call', 'tuple'):
+    if k in ('toint', 'tofloat', 'todate', 'bmax', 'bmin', 'bminlist', 'bsumlist', 'call', 'tuple'):
         _need(False)
     if k == 'toint':
         return int(ev(e[1], env))
     if k == 'tofloat':
         return float(ev(e[1], env))
+    if k == 'todate':
+        import datetime
+        return datetime.date.fromordinal(730000 + int(ev(e[1], env)))
     if k == 'bmax':
         return max(ev(e[1], env), ev(e[2], env))
     if k == 'bmin':
@@ -526,6 +532,9 @@ def agg_final(kind, vals):
         return list(vals)
     if kind == 'ANY_VALUE':
         return vals[0]
+    import datetime
+    if vals and kind in ('MIN', 'MAX') and all(isinstance(v, datetime.date) for v in vals):
+        return min(vals) if kind == 'MIN' else max(vals)       # ordered values that are neither text nor numbers: compared as they are
     nums = [to_number(v) for v in vals]
     if kind == 'MIN':
         return min(nums)
@@ -724,7 +733,8 @@ def _evaluate(q, A, B, a_names, b_names):
                 for col, (it, v) in enumerate(zip(items, vals)):
                     s = strip_alias(it)
                     if s[0] == 'agg':
-                        if s[1] not in ('COUNT', 'ARRAY_AGG', 'ANY_VALUE'):
+                        import datetime
+                        if s[1] not in ('COUNT', 'ARRAY_AGG', 'ANY_VALUE') and not (s[1] in ('MIN', 'MAX') and isinstance(v, datetime.date)):
                             guarded(nr, lambda: to_number(v))
                         g[col].append(v)
                     else:
